@@ -26,4 +26,4 @@ def run(rep, pid, tier, seed, cs):
     specs[0].total = None
     cfg = dict(htlcs=specs, invoices=[inv], store_init='free_absent', max_parts=1, pay_outcomes=('complete',))
     configs.append(('gate[1 htlc, no total_msat]', cfg, pc, [PolicyFailures(True), Coverage(['response:Fail(201a)', 'pay'])], {}))
-    scen_common.run_configs(rep, pid, c, configs, 60 if tier == 'quick' else 900)
+    scen_common.run_configs(rep, pid, c, configs, 300 if tier == 'quick' else 1800)
